@@ -509,7 +509,18 @@ def run_lines(exe, lines, timeout=120, args=(), env=None, batch=2000, per_case_t
         if hi - lo == 1:
             results[lo] = summarise(rc, err) if rc != 0 else "CRASH wrong-output-count %d" % len(out)
             return
-        # the first len(out)-ish lines are probably fine; bisect
+        # drivers print one flushed line per case: the complete lines printed before the process died / hung are
+        # the results of the first cases; the next case is the suspect, it is run alone (short time limit), and the
+        # rest of the chunk is run again.  (An incomplete last line is dropped: stdout was cut in the middle.)
+        done = out[:-1] if (out and rc == -999) else out
+        if rc != -999 and out and hi - lo > len(out):
+            done = out           # a crash report goes to stderr; stdout lines are whole
+        n = min(len(done), hi - lo - 1)
+        if n > 0 or rc != 0:
+            results[lo:lo + n] = done[:n]
+            go(lo + n, lo + n + 1)
+            go(lo + n + 1, hi)
+            return
         mid = (lo + hi) // 2
         go(lo, mid)
         go(mid, hi)
